@@ -242,7 +242,7 @@ func (e *specEnv) loadField(ref T, st types.Type, idx int) sval {
 		return sval{v: Val{K: vSlice, Arr: get(key+"#a", SInt), Off: get(key+"#o", is), Len: get(key+"#l", is), Cap: get(key+"#c", is), Typ: ft}, typ: ft}
 	}
 	r := scalar(get(key, x.sortOf(ft)))
-	if it, ok := ft.Underlying().(*types.Interface); ok && it.NumMethods() > 0 && !e.old {
+	if it, ok := ft.Underlying().(*types.Interface); ok && it.NumMethods() > 0 && !e.old && x.fnc != nil && x.fnc.Theory {
 		// well-typedness of the stored interface value (closed world for the package's own interfaces)
 		if _, closed := x.p.closedImpls(ft); closed {
 			e.s.assume(Or(Eq(r.T, T{"inil", SIface}), x.implementsT(r.T, ft)))
